@@ -838,6 +838,159 @@ theorem reading_unique' (P : XPrec) (U : Unamb P) (x y : X) (hx : XWL P x = true
 
 #print axioms reading_unique
 
+/-! #### The executable reader `xparse` only returns derivations of the reading relation -/
+
+theorem xstops_default (P : XPrec) (m : Nat) (ts : List XTok) (h : ∀ k r, ts ≠ .op k :: r) : xstops P m ts := by
+  cases ts with
+  | nil => trivial
+  | cons t r =>
+    cases t <;> simp [xstops]
+    rename_i k; exact absurd rfl (h k r)
+
+theorem xparse_sound_aux (P : XPrec) : ∀ fuel : Nat,
+    (∀ m ts e r, xparseExpr P fuel m ts = some (e, r) → XExpr P m ts e r) ∧
+    (∀ m ts e r, xparsePre P fuel m ts = some (e, r) → XPre P m ts e r) ∧
+    (∀ ts es r, xparseArgs P fuel ts = some (es, r) → es ≠ [] ∧ XArgs P ts es r) ∧
+    (∀ m acc ts e r, xparseLoop P fuel m acc ts = some (e, r) → XLoop P m acc ts e r) := by
+  intro fuel
+  induction fuel with
+  | zero =>
+    refine ⟨?_, ?_, ?_, ?_⟩ <;> intros <;> simp_all [xparseExpr, xparsePre, xparseArgs, xparseLoop]
+  | succ fuel ih =>
+    obtain ⟨ihE, ihP, ihA, ihL⟩ := ih
+    refine ⟨?_, ?_, ?_, ?_⟩
+    · intro m ts e r h
+      simp only [xparseExpr] at h
+      split at h
+      · rename_i l ts' hp
+        exact XExpr.mk (ihP m ts l ts' hp) (ihL m l ts' e r h)
+      · simp at h
+    · intro m ts e r h
+      simp only [xparsePre] at h
+      split at h
+      · -- unary minus
+        split at h
+        · rename_i hm
+          split at h
+          · rename_i e0 r0 he
+            simp only [Option.some.injEq, Prod.mk.injEq] at h
+            obtain ⟨rfl, rfl⟩ := h
+            exact XPre.neg hm (ihE _ _ e0 r0 he)
+          · simp at h
+        · simp at h
+      · simp only [Option.some.injEq, Prod.mk.injEq] at h
+        obtain ⟨rfl, rfl⟩ := h
+        exact XPre.num
+      · simp only [Option.some.injEq, Prod.mk.injEq] at h
+        obtain ⟨rfl, rfl⟩ := h
+        exact XPre.id
+      · -- parenthesis
+        split at h
+        · rename_i e0 r0 he
+          simp only [Option.some.injEq, Prod.mk.injEq] at h
+          obtain ⟨rfl, rfl⟩ := h
+          exact XPre.paren (ihE 0 _ e0 _ he)
+        · simp at h
+      · -- NOT ( … )
+        split at h
+        · rename_i e0 r0 he
+          simp only [Option.some.injEq, Prod.mk.injEq] at h
+          obtain ⟨rfl, rfl⟩ := h
+          exact XPre.notp (ihE 0 _ e0 _ he)
+        · simp at h
+      · -- IF
+        split at h
+        · rename_i hm
+          subst hm
+          split at h
+          · rename_i cnd r1 hc
+            split at h
+            · rename_i a r2 ha
+              split at h
+              · rename_i b r3 hb
+                simp only [Option.some.injEq, Prod.mk.injEq] at h
+                obtain ⟨rfl, rfl⟩ := h
+                exact XPre.ite (ihE 0 _ cnd _ hc) (ihE 0 _ a _ ha) (ihE 0 _ b _ hb)
+              · simp at h
+            · simp at h
+          · simp at h
+        · simp at h
+      · -- call with arguments
+        split at h
+        · rename_i as r0 ha
+          simp only [Option.some.injEq, Prod.mk.injEq] at h
+          obtain ⟨rfl, rfl⟩ := h
+          obtain ⟨hne, hA⟩ := ihA _ as r0 ha
+          cases as with
+          | nil => exact absurd rfl hne
+          | cons a as => exact XPre.call hA
+        · simp at h
+      · -- parameterless function
+        rename_i f r0 hnl
+        simp only [Option.some.injEq, Prod.mk.injEq] at h
+        obtain ⟨rfl, rfl⟩ := h
+        apply XPre.call0
+        cases r0 with
+        | nil => trivial
+        | cons t rest =>
+          cases t <;> simp [noLp]
+          exact hnl rest rfl
+      · simp at h
+    · intro ts es r h
+      simp only [xparseArgs] at h
+      split at h
+      · rename_i e0 r0 he
+        simp only [Option.some.injEq, Prod.mk.injEq] at h
+        obtain ⟨rfl, rfl⟩ := h
+        exact ⟨by simp, XArgs.last (ihE 0 _ e0 _ he)⟩
+      · rename_i e0 r0 he
+        split at h
+        · rename_i es' r' ha
+          simp only [Option.some.injEq, Prod.mk.injEq] at h
+          obtain ⟨rfl, rfl⟩ := h
+          exact ⟨by simp, XArgs.more (ihE 0 _ e0 _ he) (ihA _ es' r' ha).2⟩
+        · simp at h
+      · simp at h
+    · intro m acc ts e r h
+      simp only [xparseLoop] at h
+      split at h
+      · rename_i k ts'
+        split at h
+        · rename_i hb
+          split at h
+          · rename_i r0 ts'' he
+            exact XLoop.step hb (ihE _ _ r0 ts'' he) (ihL _ _ _ e r h)
+          · simp at h
+        · rename_i hb
+          simp only [Option.some.injEq, Prod.mk.injEq] at h
+          obtain ⟨rfl, rfl⟩ := h
+          exact XLoop.stop (by simp only [xstops]; omega)
+      · rename_i h1
+        simp only [Option.some.injEq, Prod.mk.injEq] at h
+        obtain ⟨rfl, rfl⟩ := h
+        exact XLoop.stop (xstops_default P m _ h1)
+
+/-- **Soundness of the executable XMILE reader.** -/
+theorem xparse_sound (P : XPrec) (ts : List XTok) (x : X) (h : xparse P ts = some x) : XReads P ts x := by
+  unfold xparse at h
+  split at h
+  · rename_i e0 he
+    simp only [Option.some.injEq] at h
+    subst h
+    exact (xparse_sound_aux P _).1 0 ts e0 [] he
+  · simp at h
+
+/-- the executable reader can only answer with THE reading: whenever some well-levelled tree prints
+to `ts`, `xparse` returns that tree (signed literals in canonical spelling) or nothing -/
+theorem xparse_the_reading (P : XPrec) (U : Unamb P) (ts : List XTok) (x y : X) (h : xparse P ts = some x)
+    (hy : XWL P y = true) (hf : flat y = ts) : x = canon y := by
+  have ry := xwl_reads P U (canon y) (by rw [xwl_canon]; exact hy) (noNnum_canon y)
+  rw [flat_canon, hf] at ry
+  exact xreads_unique P ts x (canon y) (xparse_sound P ts x h) ry
+
+#print axioms xparse_sound
+#print axioms xparse_the_reading
+
 /-! ### The token sequence determines the emitted text
 
 `flat ir = flat x → gen ir = gen x` for trees whose IFs stand in sentence positions: the generator is
@@ -1590,7 +1743,8 @@ theorem sanitize_collisions :
 (5) spellings of a name that differ in case, blanks/underscores, quoting give the same identifier;
 (6) the per-program text comparison is implied by the token comparison: an IR that kept the token
     sequence (IFs in sentence positions) emits the text of the reading;
-(7) a token sequence has at most one well-levelled XMILE reading;
+(7) a token sequence has at most one well-levelled XMILE reading, and the executable reference reader
+    `xparse` can only return it;
 (8) the delay/smooth helper (DELAY1/3/N, SMTH3/N), run the way the generated class handles time keys,
     returns at every grid point and stage the cascade of first-order stocks advanced once per
     interval — for every time representation admitting `grid_time`, every arithmetic, every horizon. -/
@@ -1613,7 +1767,8 @@ def C03_full (c : Cfg) (P : XPrec) : Prop :=
   (∀ x : X, known c x = false → compile c x = none) ∧
   (∀ a b : List Nat, plain a → plain b → canonN a = canonN b → sanL a = sanL b) ∧
   (∀ (ts : List XTok) (ir x : X), validateFlat P ts ir = some x → validate c P ts ir = some x) ∧
-  (∀ x y : X, XWL P x = true → XWL P y = true → flat x = flat y → canon x = canon y) ∧
+  ((∀ x y : X, XWL P x = true → XWL P y = true → flat x = flat y → canon x = canon y) ∧
+   (∀ (ts : List XTok) (x y : X), xparse P ts = some x → XWL P y = true → flat y = ts → x = canon y)) ∧
   (∀ (T α : Type) (ht : HTime T) (A : HArith α) (inp init : T → α) (label : Nat → T) (N : Nat),
      HAdm ht label N → ∀ k, k ≤ N → ∀ y fuel, k < fuel →
        smthH (ht.norm c) ht A inp init fuel y (label k)
@@ -1649,8 +1804,8 @@ theorem C03_full_of_good (c : Cfg) (P : XPrec) (hP : precAgree P = true) (hU : U
     simp [compile, hk, hU']
   · intro ts ir x hv
     exact validate_of_flat c P hP hO ts ir x hv
-  · intro x y hx hy hf
-    exact reading_unique P hU x y hx hy hf
+  · exact ⟨fun x y hx hy hf => reading_unique P hU x y hx hy hf,
+      fun ts x y hp hy hf => xparse_the_reading P hU ts x y hp hy hf⟩
   · intro T α ht A inp init label N hA k hk y fuel hf
     have : ht.norm c = ht.gnorm := by simp [HTime.norm, hH]
     rw [this]
